@@ -574,6 +574,7 @@ func exhaustive(g *core.G) {
 
 func gen(g *core.G) {
 	exhaustive(g)
+	genTParam(g)
 	chains, perChain, tuples := 300, 4, 5
 	if g.Thorough() {
 		chains, perChain = 10000, 2
